@@ -11,6 +11,10 @@ snapshotted:
   C06.alias       a freshly created .grad shares storage with another tensor or .grad (any tensor of the program,
                   any other .grad, the other fresh ones included), or a user edit of one .grad shows in another
   C06.kfold       k identical calls do not give the first call's update accumulated k times
+  C06.kept        the user keeps a reference to EVERY tensor that ever was a .grad (g = p.grad); a tensor that is no
+                  longer the .grad of anything (after p.grad = None / a replacement) is written to by a later call, or
+                  a .grad created later shares its storage
+  C06.accumulate  (also) an existing .grad is replaced by another tensor object instead of being added to in place
 """
 from __future__ import annotations
 
@@ -21,15 +25,19 @@ import torch
 
 from tjv.rt import gen
 from tjv.rt.aggs import make_agg
-from ._autojac import (AGG_TOL, choose_inputs, full_state, mtl_all_tensors, mtl_reference, n_rows, overlaps,
-                       selection_ambiguous, set_pregrads, state_changes, storage_range, _grad_of)
+from ._autojac import (AGG_TOL, as_container, choose_inputs, full_state, mtl_all_tensors, mtl_reference, n_rows,
+                       overlaps, selection_ambiguous, set_pregrads, state_changes, storage_range, _grad_of)
 
 RULE = ("history = 1..4 calls (each with its own subset/order of requested inputs and chunk size; retained graph, "
         "the last call may free it) x edits between calls (zero_, =None, mul_, add_, replacement of random .grad "
         "fields) x pre-existing .grad none/some/all of arbitrary content x random program (gen.build with reuse, "
         "unused leaves, leaves not requiring grad; gen.build_mtl with overlapping/empty groups) x deterministic "
         "aggregator (Constant distinct, Mean, UPGrad, Krum, TrimmedMean) x dtype. kfold family: k in 2..4 identical "
-        "calls without edits. distinct = (program trace, aggregator, history); non-trivial = >=2 calls or a "
+        "calls without edits. reset family: between two calls EVERY .grad is set to None (zero_grad(set_to_none=True)) "
+        "or zeroed in place, while the user keeps the references g = p.grad taken after each call: kept tensors "
+        "must keep their values and share no storage with a .grad created later (C06.kept), and a .grad that exists "
+        "must stay the same tensor object (added to in place). Parameter lists are given as list / tuple / dict "
+        "keys / one-shot iterator / generator; leaves in contiguous / permuted / strided / expanded layouts. distinct = (program trace, aggregator, history); non-trivial = >=2 calls or a "
         "pre-existing .grad on a requested input, and a non-zero update, and at least one leaf that is NOT requested")
 BOUNDS = "<=4 calls, <=3 edits between two calls; programs as in C01 / C02 (<=5 leaves, <=8 ops; <=3 shared, <=4 tasks)"
 EXHAUSTIVE = ""
@@ -44,11 +52,14 @@ AGGS = [
     {"name": "Sum"},
 ]
 EDITS = ["zero", "none", "scale", "add", "replace"]
+ALL_EDITS = ["none_all", "none_all", "zero_all", "none_req"]  # reset family (none_req: only the last call's inputs)
+CONTAINERS = ["list", "iter", "gen", "tuple", "dictkeys"]
 
 
 def cases(tier, seed, focus=None):
     n = 220 if tier == "quick" else 5000
     rng = random.Random(6000 + seed)
+    rng2 = random.Random(6006000 + seed)  # stream of the later families (the earlier cases are kept as they were)
     for i in range(n):
         fn = "backward" if i % 3 else "mtl"
         kfold = (i % 5 == 0)
@@ -68,9 +79,23 @@ def cases(tier, seed, focus=None):
              "chunk": rng.choice([None, 1, 2, 3])} for _ in range(n_calls)]
         edits = [[] if kfold else [{"leaf": rng.randrange(16), "op": rng.choice(EDITS), "seed": rng.randrange(10**6)}
                                    for _ in range(rng.randint(0, 3))] for _ in range(n_calls - 1)]
-        yield {"fn": fn, "prog": prog, "agg": AGGS[i % len(AGGS)], "pre": rng.choice(["none", "some", "all"]),
-               "pre_seed": rng.randrange(10**6), "calls": calls, "edits": edits, "kfold": kfold,
-               "free_last": rng.random() < 0.3}
+        case = {"fn": fn, "prog": prog, "agg": AGGS[i % len(AGGS)], "pre": rng.choice(["none", "some", "all"]),
+                "pre_seed": rng.randrange(10**6), "calls": calls, "edits": edits, "kfold": kfold,
+                "free_last": rng.random() < 0.3}
+        r2 = random.Random(rng2.randrange(10**9))
+        if i % 2 == 1:  # parameter lists as other kinds of iterables (one-shot ones included)
+            for c in calls:
+                c["as"] = r2.choice(CONTAINERS)
+        if i % 5 in (1, 3) and not kfold:  # reset family
+            if len(calls) < 2:
+                calls.append(dict(calls[0]) if r2.random() < 0.5 else
+                             {"sel": r2.randrange(10**6), "mode": r2.choice(["all", "subset"]),
+                              "chunk": r2.choice([None, 1, 2, 3])})
+            case["edits"] = [[{"leaf": 0, "op": r2.choice(ALL_EDITS), "seed": 0}] +
+                             ([{"leaf": r2.randrange(16), "op": r2.choice(EDITS), "seed": r2.randrange(10**6)}]
+                              if r2.random() < 0.3 else []) for _ in range(len(calls) - 1)]
+            case["pre"] = r2.choice(["none", "none", "some", "all"])
+        yield case
 
 
 # ----------------------------------------------------------------------------- one call on the real program + oracle
@@ -122,14 +147,16 @@ class _Ctx:
             idx = choose_inputs(self.p1, call["sel"], call["mode"])
             ins1 = [self.p1.grad_leaves[i] for i in idx]
             ins2 = [self.p2.grad_leaves[i] for i in idx]
-            backward(self.p1.outputs, self.agg(), inputs=ins1, retain_graph=retain, parallel_chunk_size=call["chunk"])
+            backward(self.p1.outputs, self.agg(), inputs=as_container(ins1, call.get("as", "list")),
+                     retain_graph=retain, parallel_chunk_size=call["chunk"])
             J = gen.ref_jacobian(self.p2.outputs, ins2)
             upd = {self.pos[id(t)]: u for t, u in zip(ins1, gen.split_like(self.agg()(J), ins2))}
             return ins1, upd, J
         sh1, tp1 = self._mtl_selection(self.p1, call)
         sh2, tp2 = self._mtl_selection(self.p2, call)
-        mtl_backward(self.p1.losses, self.p1.features, self.agg(), tasks_params=tp1, shared_params=sh1,
-                     retain_graph=retain, parallel_chunk_size=call["chunk"])
+        how = call.get("as", "list")
+        mtl_backward(self.p1.losses, self.p1.features, self.agg(), tasks_params=[as_container(g, how) for g in tp1],
+                     shared_params=as_container(sh1, how), retain_graph=retain, parallel_chunk_size=call["chunk"])
         q = copy.copy(self.p2)
         q.shared, q.tasks_params = sh2, tp2
         J, upd2 = mtl_reference(q, self.agg())
@@ -143,8 +170,18 @@ class _Ctx:
         return req, upd, J
 
 
-def _apply_edit(leaves, e, dtype):
+def _apply_edit(leaves, e, dtype, last_req=()):
+    """Applies a user edit; returns the list of tensors whose .grad was edited."""
     cands = [t for t in leaves if t.requires_grad]
+    if e["op"] in ("none_all", "zero_all", "none_req"):
+        which = list(last_req) if e["op"] == "none_req" else cands
+        for t in which:
+            if e["op"] == "zero_all":
+                if t.grad is not None:
+                    t.grad.zero_()
+            else:
+                t.grad = None
+        return which
     t = cands[e["leaf"] % len(cands)]
     g = torch.Generator().manual_seed(e["seed"])
     rnd = (torch.rand(t.shape, generator=g, dtype=torch.float64) * 6.0 - 3.0).to(dtype)
@@ -159,7 +196,7 @@ def _apply_edit(leaves, e, dtype):
         t.grad.mul_(-1.5)
     elif op == "add":
         t.grad.add_(rnd)
-    return t
+    return [t]
 
 
 def run_case(case):
@@ -177,9 +214,19 @@ def run_case(case):
     unrequested = False
     g0 = first_delta = None
     base = {"sig": sig, "nontrivial": False}
+    held = {}  # id(g) -> (g, position of the tensor it was the .grad of): the user keeps every .grad tensor ever seen
+
+    def keep_refs():
+        for i, t in enumerate(ctx.tensors):
+            g = _grad_of(t)
+            if g is not None and id(g) not in held:
+                held[id(g)] = (g, i)
+
+    keep_refs()
     for j, call in enumerate(case["calls"]):
         retain = not (case["free_last"] and j == n_calls - 1)
         before = full_state(ctx.tensors)
+        kept = [(g, i, _grad_of(ctx.tensors[i]) is g, g.detach().clone(), g._version) for g, i in held.values()]
         if j == 0:
             g0 = [b["g"] for b in before]
         try:
@@ -210,9 +257,27 @@ def run_case(case):
                             what=f"call {j}: .grad of requested tensor {i} is not (previous .grad or nothing) + update",
                             observed=None if a["g"] is None else a["g"].tolist(), expected=want.tolist(),
                             previous=None if b["g"] is None else b["g"].tolist())
+        # kept references: a tensor that is nobody's .grad any more is not written to; an existing .grad stays the
+        # same tensor object (it is added to in place)
+        for g, i, attached, val, ver in kept:
+            if not attached:
+                if g._version != ver or not torch.equal(g, val):
+                    return dict(base, ok=False, key="C06.kept",
+                                what=f"call {j}: a tensor the user kept (it was the .grad of tensor {i} before that "
+                                     ".grad was reset) was written to",
+                                observed=g.tolist(), expected=val.tolist())
+            elif i in req_pos and _grad_of(ctx.tensors[i]) is not g:
+                return dict(base, ok=False, key="C06.accumulate",
+                            what=f"call {j}: the existing .grad of requested tensor {i} was replaced by another "
+                                 "tensor object instead of being added to in place (a reference kept by the user "
+                                 "does not see the update)",
+                            observed="p.grad is not the tensor it was", expected="same tensor object, updated in place")
         # alias: fresh grads own their memory
         fresh = [i for i in sorted(req_pos) if before[i]["g"] is None and after[i]["g"] is not None]
         ranges = []
+        for g, i, attached, val, ver in kept:
+            if not attached:
+                ranges.append((f"tensor kept by the user (former .grad of tensor {i})", storage_range(g)))
         for i, t in enumerate(ctx.tensors):
             ranges.append((f"value of tensor {i}", storage_range(t)))
             g = _grad_of(t)
@@ -224,7 +289,7 @@ def run_case(case):
                 if name == f".grad of tensor {i}":
                     continue
                 if overlaps(mine, r):
-                    return dict(base, ok=False, key="C06.alias",
+                    return dict(base, ok=False, key="C06.kept" if name.startswith("tensor kept") else "C06.alias",
                                 what=f"call {j}: the freshly created .grad of tensor {i} shares storage with the {name}",
                                 observed=[list(mine), list(r)], expected="disjoint storages")
         if case["kfold"]:
@@ -234,6 +299,10 @@ def run_case(case):
                 first_delta = delta
             k = j + 1
             for i in sorted(req_pos):
+                if after[i]["g"] is None or first_delta[i] is None:
+                    return dict(base, ok=False, key="C06.kfold",
+                                what=f"after {k} identical calls the .grad of requested tensor {i} is None",
+                                observed=None, expected="g0 + k x update")
                 want = first_delta[i] * k if g0[i] is None else g0[i] + first_delta[i] * k
                 mag = scale * max(1.0, float(want.abs().max()) if want.numel() else 1.0)
                 if not gen.close(after[i]["g"], want, max(rtol, 1e-7), max(atol, 1e-7) * mag * k):
@@ -241,16 +310,18 @@ def run_case(case):
                                 what=f"after {k} identical calls the .grad of tensor {i} is not g0 + {k} x first update",
                                 observed=after[i]["g"].tolist(), expected=want.tolist())
         # user edits before the next call: an edit of one .grad must show nowhere else
+        keep_refs()
         if j < n_calls - 1:
             for e in case["edits"][j]:
                 b2 = full_state(ctx.tensors)
-                t = _apply_edit(ctx.leaves1, e, ctx.dtype)
+                edited = {ctx.pos[id(t)] for t in _apply_edit(ctx.leaves1, e, ctx.dtype, req)}
                 a2 = full_state(ctx.tensors)
                 for (i, what) in state_changes(b2, a2):
-                    if i != ctx.pos[id(t)]:
+                    if i not in edited:
                         return dict(base, ok=False, key="C06.alias",
-                                    what=f"after call {j}: editing the .grad of tensor {ctx.pos[id(t)]} ({e['op']}) "
+                                    what=f"after call {j}: editing the .grad of tensors {sorted(edited)} ({e['op']}) "
                                          f"changed {what} of tensor {i}",
                                     observed=what, expected="unchanged")
+                keep_refs()
     base["nontrivial"] = bool(nontriv_update and unrequested and (n_calls >= 2 or had_pre))
     return dict(base, ok=True)
